@@ -44,6 +44,8 @@ enum Act {
     /// receiver: 0 = V, 1 = the gas collector itself, 2 = an address the third token refuses, 3 = the gas service itself
     Collect { token: usize, amt: Amt, by: usize, receiver: u8 },
     Refund { token: usize, amt: Amt, by: usize, receiver: u8 },
+    /// a refund of 1 by the collector for the empty message id
+    RefundEmptyId { token: usize },
     /// the current owner hands the ownership to the stranger (the collector role must not follow)
     TransferOwnershipToStranger,
     Advance(u32),
@@ -156,6 +158,7 @@ impl Scenario for C14 {
                 v.push(Act::Collect { token, amt, by: 3, receiver: 0 });
                 v.push(Act::Refund { token, amt, by: 3, receiver: 0 });
             }
+            v.push(Act::RefundEmptyId { token });
             // paying out to the service itself must leave every balance where it was
             for amt in [Amt::One, Amt::All] {
                 v.push(Act::Collect { token, amt, by: 3, receiver: 3 });
@@ -245,6 +248,31 @@ impl Scenario for C14 {
                     out.expect(h0 == w.state_hash(), "rejected-but-changed-state", || format!("{:?}", a));
                 }
             }
+            Act::RefundEmptyId { token } => {
+                out.kind = "refund";
+                let held = m.bal[*token][3];
+                let tok = token_scval(&w.sc_addr(&ctx.tokens[*token]), 1);
+                let recv = ctx.who[2].clone();
+                let call = w.call(&ctx.gas, "refund", &[to_val(env, &sstr("")), recv.to_val(), to_val(env, &tok)], Auth::By(&[ctx.who[3].clone()]));
+                out.accepted = call.ok;
+                let want = held >= 1 && m.bal[*token][2].checked_add(1).is_some();
+                out.expect(call.ok == want, "payout.outcome", || format!("{:?} (held {}): ok={} ({}), model {}", a, held, call.ok, call.err, want));
+                if call.ok {
+                    if want {
+                        m.bal[*token][3] -= 1;
+                        m.bal[*token][2] += 1;
+                        m.net[*token] -= 1;
+                    }
+                    let r = match_events(
+                        &call.events,
+                        &[EvPat { contract: gasc.clone(), name: "gas_refunded", must: vec![sstr(""), w.sc_addr_val(&recv), tok.clone()] }],
+                        &["gas_paid", "gas_added", "gas_collected", "gas_refunded"],
+                    );
+                    out.expect(r.is_ok(), "payout.event", || truncate(&r.unwrap_err(), 500));
+                } else {
+                    out.expect(h0 == w.state_hash(), "rejected-but-changed-state", || format!("{:?}", a));
+                }
+            }
             Act::Collect { token, amt, by, receiver } | Act::Refund { token, amt, by, receiver } => {
                 let collect = matches!(a, Act::Collect { .. });
                 out.kind = if collect { "collect_fees" } else { "refund" };
@@ -315,7 +343,7 @@ fn main() {
         let thorough = tier == "thorough";
         let mut o = Opts::new(tier, if thorough { 10 } else { 4 });
         o.min_depth = 3;
-        o.rule = "three configurations (owner and collector distinct / the same address at deployment / the service already holding i128::MAX - 5 of two tokens); all sequences over ownership transfer to the stranger, pay_gas / add_gas (2 tokens: stellar asset contract and native interchain token; spenders U1, U2; amounts -1, 0, 1, balance, balance+1; authorised by the spender or by someone else; also naming the gas service itself as payer) and collect_fees / refund (amounts -1, 0, 1, held, held+1; by collector, owner, stranger (who may have become the owner); to a receiver, to the collector itself, to the gas service itself, and to an address that a third token refuses); after every new state all balances of both tokens and the equation held == paid + added - collected - refunded are compared with the model".into();
+        o.rule = "three configurations (owner and collector distinct / the same address at deployment / the service already holding i128::MAX - 5 of two tokens); all sequences over ownership transfer to the stranger, pay_gas / add_gas (2 tokens: stellar asset contract and native interchain token; spenders U1, U2; amounts -1, 0, 1, balance, balance+1; authorised by the spender or by someone else; also naming the gas service itself as payer) and collect_fees / refund (also for the empty message id; amounts -1, 0, 1, held, held+1; by collector, owner, stranger (who may have become the owner); to a receiver, to the collector itself, to the gas service itself, and to an address that a third token refuses); after every new state all balances of both tokens and the equation held == paid + added - collected - refunded are compared with the model".into();
         (C14 { thorough }, o)
     });
 }
